@@ -111,7 +111,7 @@ def inventories_of(lst):
     return out
 
 
-IMPORTS = ["Base.Bytes", "Model.Json", "Model.JsonValue", "Model.Validate", "Model.KnownC07", "Corr.CheckValidate"]
+IMPORTS = ["Base.Bytes", "Model.Json", "Model.JsonValue", "Model.Validate", "Corr.CheckValidate"]
 
 
 def parse_codes(txt):
@@ -119,32 +119,16 @@ def parse_codes(txt):
     return [int(x) for x in re.findall(r"\d+", txt)]
 
 
-def g_verdicts(name, roots, batch=40):
-    """Gallina verdicts of object roots: list of dict(fix=[codes], nofix=[codes], known=bool)"""
-    terms = []
-    lsts = []
-    for r in roots:
-        lst = listing(r)
-        lsts.append(lst)
-        terms.append("g_object2 %s" % coq_node(lst))
-        invs = []
-        seen = set()
-        allinv = inventories_of(lst)
-        for i, x in enumerate(allinv):
-            if x not in seen and b"\\" in x:      # the classifier can only fire on a text with a backslash
-                seen.add(x)
-                invs.append(x)
-        terms.append("g_known_escape [%s]" % "; ".join(coq_bytes(x) for x in invs))
+def g_verdicts(name, roots, batch=20):
+    """Gallina verdicts of object roots: list of dict(fix=[codes], nofix=[codes])"""
+    terms = ["g_object2 %s" % coq_node(listing(r)) for r in roots]
     res = common.coq_eval(name, IMPORTS, terms, batch=batch)
     out = []
-    for i in range(len(roots)):
-        pair, known = res[2 * i], res[2 * i + 1]
+    for pair in res:
         m = re.match(r"^\((.*),\s*(\[[^\]]*\]|nil)\)$", pair)
         if not m:
             raise common.BuildError("unexpected Coq value for g_object2: %r" % pair[:200])
-        if known not in ("true", "false"):
-            raise common.BuildError("unexpected Coq value for g_known_escape: %r" % known[:200])
-        out.append({"fix": parse_codes(m.group(1)), "nofix": parse_codes(m.group(2)), "known": known == "true"})
+        out.append({"fix": parse_codes(m.group(1)), "nofix": parse_codes(m.group(2))})
     return out
 
 
